@@ -900,7 +900,7 @@ use std::sync::{Arc, Mutex};
 /// has the same modification time as the version it replaces (and, when the generator padded the
 /// sources, the same length) — what `cp -p`, `rsync -t` or a build step do; the metadata of the
 /// file then says nothing about whether its contents changed.
-fn watch_session(dir: &Path, sources: &[String], stack: u8, same_stat: bool) -> Vec<String> {
+fn watch_session(dir: &Path, sources: &[Vec<u8>], stack: u8, same_stat: bool) -> Vec<String> {
     let file = dir.join("w.asm");
     std::fs::write(&file, "halt\n").unwrap();
     let args = match stack {
@@ -945,7 +945,13 @@ fn watch_session(dir: &Path, sources: &[String], stack: u8, same_stat: bool) -> 
     }
     std::thread::sleep(Duration::from_millis(300));
     let mut verdicts = Vec::new();
+    // (text, what its re-check printed): saving the same text again must print the same again
+    let mut prev: Option<(Vec<u8>, Vec<u8>)> = None;
     for src in sources {
+        if let Ok(Some(_)) = child.try_wait() {
+            verdicts.push("none".to_string());
+            continue;
+        }
         let mark = buf.lock().unwrap().len();
         if same_stat {
             let mtime = std::fs::metadata(&file).and_then(|m| m.modified()).ok();
@@ -987,13 +993,21 @@ fn watch_session(dir: &Path, sources: &[String], stack: u8, same_stat: bool) -> 
             None => "none",
             Some(i) => {
                 let tail = &seg[i + CLEAR.len()..];
-                let diag = tail.split(|c| *c == b'\n').any(|l| {
-                    let l = strip_csi(l);
-                    !l.iter().all(|c| c.is_ascii_whitespace()) && !is_status_line(&l)
-                });
-                if diag { "diag" } else { "ok" }
+                // success = the output ends with a status line beyond the three banner lines
+                // (warnings may stand in between); anything else that is not blank = a diagnostic
+                let lines: Vec<Vec<u8>> = tail.split(|c| *c == b'\n').map(strip_csi).filter(|l| !l.iter().all(|c| c.is_ascii_whitespace())).collect();
+                let n_status = lines.iter().filter(|l| is_status_line(l)).count();
+                let ends_with_status = lines.last().map(|l| is_status_line(l)).unwrap_or(false);
+                let diag = !(ends_with_status && n_status >= 4);
+                let this = (src.clone(), tail.to_vec());
+                let unstable = matches!(&prev, Some(p) if p.0 == this.0 && p.1 != this.1);
+                prev = Some(this);
+                if unstable { "differs-from-the-previous-re-check-of-the-same-text" } else if diag { "diag" } else { "ok" }
             }
         };
+        // the watcher gave up (it does when the file cannot be read as text)
+        std::thread::sleep(Duration::from_millis(30));
+        let v = if let Ok(Some(_)) = child.try_wait() { "exited" } else { v };
         verdicts.push(v.to_string());
     }
     let _ = child.kill();
@@ -1003,7 +1017,7 @@ fn watch_session(dir: &Path, sources: &[String], stack: u8, same_stat: bool) -> 
     verdicts
 }
 
-fn check_verdict(dir: &Path, src: &str, stack: bool) -> String {
+fn check_verdict(dir: &Path, src: &[u8], stack: bool) -> String {
     std::fs::write(dir.join("c.asm"), src).unwrap();
     let mut a = vec!["check", "c.asm"];
     if stack {
@@ -1023,17 +1037,17 @@ pub fn run_c19w(o: &crate::Opts) {
     let tmp = TmpDir::new(&format!("c19w-{}", o.shard));
     let dir = tmp.0.clone();
     // `code` = flag placement (0 off, 1 after, 2 before the subcommand) + 4 × delivery mode
-    let run_one = |dir: &Path, code: u8, srcs: &[String]| -> String {
+    let run_one = |dir: &Path, code: u8, srcs: &[Vec<u8>]| -> String {
         let stack = code % 4;
         let w = watch_session(dir, srcs, stack, code / 4 == 1);
         let fresh: Vec<String> = srcs.iter().map(|s| check_verdict(dir, s, stack != 0)).collect();
         format!("watch={} fresh={}", w.join(","), fresh.join(","))
     };
-    let req_of = |stack: u8, srcs: &[String]| -> String {
+    let req_of = |stack: u8, srcs: &[Vec<u8>]| -> String {
         let mut s = format!("W19 {} {:x}", stack, srcs.len());
         for x in srcs {
             s.push(' ');
-            s.push_str(&hex(x.as_bytes()));
+            s.push_str(&hex(x));
         }
         s
     };
@@ -1042,7 +1056,7 @@ pub fn run_c19w(o: &crate::Opts) {
             let f: Vec<&str> = line.split_whitespace().collect();
             let obs = (|| {
                 let stack: u8 = f.get(1)?.parse().ok()?;
-                let srcs: Option<Vec<String>> = f[3..].iter().map(|h| String::from_utf8(unhex(h)?).ok()).collect();
+                let srcs: Option<Vec<Vec<u8>>> = f[3..].iter().map(|h| unhex(h)).collect();
                 Some(run_one(&dir, stack, &srcs?))
             })()
             .unwrap_or_else(|| "bad-request".into());
@@ -1054,7 +1068,10 @@ pub fn run_c19w(o: &crate::Opts) {
     let mut rng = Rng::new(o.seed.wrapping_mul(9176) ^ (o.shard as u64) << 32 ^ 0xC19);
     // building blocks: valid, lexer failure, failure after labels were recorded (parser, backpatch,
     // emission), sources sharing label names with their predecessors (defining or only using them)
-    let pool: [&str; 13] = [
+    let pool: [&str; 15] = [
+        // assembles, with a warning on standard output (saved twice: the same output twice)
+        ".blkw #-32768\nhalt\n",
+        "halt\n.blkw #-32767\nx .fill x1\n",
         "push r0\npop r1\nhalt\n",
         "start call f\nhalt\nf rets\n",
         "lea r0 pop\nhalt\npop .fill x0\n",
@@ -1074,6 +1091,12 @@ pub fn run_c19w(o: &crate::Opts) {
     for _ in 0..sessions {
         let len = rng.range(3, 6) as usize;
         let mut srcs: Vec<String> = (0..len).map(|_| (*rng.pick(&pool)).to_string()).collect();
+        // the same text saved twice in a row
+        if rng.chance(1, 2) {
+            let k = rng.below(srcs.len() as u64) as usize;
+            let t = srcs[k].clone();
+            srcs.insert(k, t);
+        }
         // the flag: absent, after the subcommand, before it
         let mut stack = ((o.shard as u64 + n) % 3) as u8;
         // every other session: versions of equal length delivered by rename with the old mtime
@@ -1085,6 +1108,15 @@ pub fn run_c19w(o: &crate::Opts) {
                 s.push_str(&"p".repeat(k - 1));
             }
             stack += 4;
+        }
+        let mut srcs: Vec<Vec<u8>> = srcs.into_iter().map(|s| s.into_bytes()).collect();
+        // one session in four: a version that ends in the middle of a multi-byte character (what an
+        // editor caught half-way through a save leaves), or contains a stray continuation byte:
+        // not text — `check` refuses it and the watcher gives up
+        if (o.shard as u64 + n) % 4 == 3 {
+            let k = 1 + rng.below(srcs.len() as u64 - 1) as usize;
+            let bad: &[u8] = if rng.chance(1, 2) { b"halt ; caf\xc3" } else { b"halt\n; \xe2\x82\nhalt\n" };
+            srcs[k] = bad.to_vec();
         }
         let obs = run_one(&dir, stack, &srcs);
         sink.put(&req_of(stack, &srcs), &obs);
